@@ -168,6 +168,9 @@ func compare(o jsonv2.Options, s state, ks []key) string {
 		if ok != wok {
 			return fmt.Sprintf("GetOption(%s) present=%v, last-wins map model says %v", k.name, ok, wok)
 		}
+		if !ok && got != nil && !reflect.ValueOf(got).IsZero() {
+			return fmt.Sprintf("GetOption(%s) reports the option as absent but returns %v, not the zero value", k.name, got)
+		}
 		if ok && !reflect.DeepEqual(got, want) {
 			return fmt.Sprintf("GetOption(%s) = %v, last setter supplied %v", k.name, got, want)
 		}
@@ -249,6 +252,12 @@ func checkSeq(seq []atom, ks []key, behaviour bool) (msg string) {
 	joined := jsonv2.JoinOptions(os...)
 	if m := compare(joined, s, ks); m != "" {
 		return "JoinOptions(all): " + m
+	}
+	if len(seq) == 1 && os[0] != nil {
+		// a single option value queried as it is, without going through JoinOptions
+		if m := compare(os[0], s, ks); m != "" {
+			return "the option value itself, not joined: " + m
+		}
 	}
 	if len(seq) >= 2 {
 		left := jsonv2.JoinOptions(jsonv2.JoinOptions(os[:len(os)-1]...), os[len(os)-1])
@@ -355,6 +364,10 @@ func scoping(r *evid.Run, ks []key) {
 		{jsonv2.StringifyNumbers(true), jsonv2.Deterministic(true), jsontext.SpaceAfterComma(true)}, {jsontext.Multiline(true), jsonv2.StringifyNumbers(true)},
 		{jsontext.WithIndent(" "), jsonv2.FormatNilSliceAsNull(true)}, {jsontext.AllowDuplicateNames(true), jsonv2.StringifyNumbers(true)}, {jsontext.AllowInvalidUTF8(true), jsonv2.OmitZeroStructFields(true)},
 		{jsontext.SpaceAfterComma(false), jsontext.AllowDuplicateNames(false), jsonv2.Deterministic(true)}}
+	// per-call options that cannot change the output of these coders (an indent string without Multiline): never refused
+	firstHarmless := len(extraSets)
+	extraSets = append(extraSets, []jsonv2.Options{jsontext.WithIndent("  "), jsontext.Multiline(false)}, []jsonv2.Options{jsontext.WithIndentPrefix("\t\t"), jsontext.Multiline(false), jsonv2.StringifyNumbers(true)},
+		[]jsonv2.Options{jsontext.Multiline(false)}, []jsonv2.Options{jsontext.WithIndent("\t"), jsontext.WithIndentPrefix(" "), jsontext.Multiline(false), jsonv2.FormatNilSliceAsNull(true)})
 	// decode side: documents with an error at every stage (string-tagged fields, nested, format-tagged, unknown members, syntax)
 	docs := []string{
 		`{"a":1}`, `{"S":"12","F":"1.5"}`, `{"a":1,"S":"1"}`, `{"S":"x"}`, `{"S":12}`, `{"F":"1e999"}`, `{"a":"no"}`, `{"M":{"k":{"S":"bad"}}}`, `{"L":[{"a":1},{"S":"bad"}]}`, `{"M":{"k":{"a":1}},"a":true}`,
@@ -423,6 +436,16 @@ func scoping(r *evid.Run, ks []key) {
 				} else {
 					nEncOK++
 				}
+				// options given per call act like options given up front
+				if vi < len(vals) {
+					want, werr := jsonv2.Marshal(v, append(append([]jsonv2.Options{}, base...), extra...)...)
+					switch {
+					case err == nil && (werr != nil || bb.String() != string(want)+"\n"):
+						r.Violation(fmt.Sprintf("c19|scope-enc-eq|%d|%d|%d", bi, ei, vi), fmt.Sprintf("MarshalEncode with per-call options wrote %q, Marshal with the same options up front gives %q (%v)", bb.String(), want, werr), Case{Part: "scoping", Note: fmt.Sprintf("MarshalEncode value#%d base#%d extra#%d", vi, bi, ei)}, nil)
+					case err != nil && werr == nil && ei >= firstHarmless:
+						r.Violation(fmt.Sprintf("c19|scope-enc-refused|%d|%d|%d", bi, ei, vi), fmt.Sprintf("MarshalEncode refuses per-call options that cannot affect the output: %v (Marshal with them up front gives %q)", err, want), Case{Part: "scoping", Note: fmt.Sprintf("MarshalEncode value#%d base#%d extra#%d", vi, bi, ei)}, nil)
+					}
+				}
 			}
 		}
 	}
@@ -451,7 +474,7 @@ func scoping(r *evid.Run, ks []key) {
 	r.Outcomes(map[string]int64{"scoping: UnmarshalDecode succeeded": nOK, "scoping: UnmarshalDecode failed": nErr, "scoping: MarshalEncode succeeded": nEncOK, "scoping: MarshalEncode failed": nEncErr})
 	r.Evaluations.Add(n)
 	r.Nontrivial.Add(n)
-	r.Bound("scoping: %d coder base option sets x %d per-call option sets x %d documents (errors at every stage: string-/format-tagged fields, nested, unknown, duplicate, syntax) for UnmarshalDecode and 11 values for MarshalEncode (among them string- and format-tagged members whose value fails to marshal, at top level and nested): every option key of the coder identical before and after; JoinOptions snapshots do not alias live coder options", len(baseSets), len(extraSets), len(docs))
+	r.Bound("scoping: %d coder base option sets x %d per-call option sets x %d documents (errors at every stage: string-/format-tagged fields, nested, unknown, duplicate, syntax) for UnmarshalDecode and 11 values for MarshalEncode (among them string- and format-tagged members whose value fails to marshal, at top level and nested): every option key of the coder identical before and after; a successful MarshalEncode writes what Marshal with the same options up front returns; an indent string without Multiline is never refused; JoinOptions snapshots do not alias live coder options", len(baseSets), len(extraSets), len(docs))
 }
 
 func diffSnap(a, b string) string {
@@ -699,7 +722,7 @@ func Replay(r *evid.Run, raw json.RawMessage) {
 }
 
 func Run(r *evid.Run) {
-	r.Rule("atoms = every exported option constructor of json, jsontext and v1 with every argument class (30 boolean options x {true,false}, WithIndent x 3, WithIndentPrefix x 2, WithMarshalers/WithUnmarshalers x {nil,A,B}, DefaultOptionsV1, DefaultOptionsV2, nested JoinOptions, nil, empty join). All atom sequences up to length L (full alphabet) and L+1 (sub-alphabet): GetOption (value and presence) of all 34 keys on JoinOptions(seq), on left- and right-nested joins equals a last-wins map model (couplings: WithIndent/WithIndentPrefix imply Multiline; DefaultOptionsV1/V2 set exactly the documented legacy options); on a behaviour subset, Marshal/Unmarshal with the options passed separately, joined and nested agree on an option-sensitive corpus. Irrelevance of encode-only / decode-only options; coder options identical before and after MarshalEncode/UnmarshalDecode with per-call options on success and on every error exit; JoinOptions snapshots do not alias; v1 functions == v2 + DefaultOptionsV1; DefaultOptionsV2 cancels. evaluations = sequences / scenarios; distinct_nontrivial = distinct sequences in which a later atom overrides an earlier one")
+	r.Rule("atoms = every exported option constructor of json, jsontext and v1 with every argument class (30 boolean options x {true,false}, WithIndent x 3, WithIndentPrefix x 2, WithMarshalers/WithUnmarshalers x {nil,A,B}, DefaultOptionsV1, DefaultOptionsV2, nested JoinOptions, nil, empty join). All atom sequences up to length L (full alphabet) and L+1 (sub-alphabet): GetOption (value and presence) of all 34 keys on JoinOptions(seq), on left- and right-nested joins and on a single option value as it is equals a last-wins map model (couplings: WithIndent/WithIndentPrefix imply Multiline; DefaultOptionsV1/V2 set exactly the documented legacy options); on a behaviour subset, Marshal/Unmarshal with the options passed separately, joined and nested agree on an option-sensitive corpus. Irrelevance of encode-only / decode-only options; coder options identical before and after MarshalEncode/UnmarshalDecode with per-call options on success and on every error exit; JoinOptions snapshots do not alias; v1 functions == v2 + DefaultOptionsV1; DefaultOptionsV2 cancels. evaluations = sequences / scenarios; distinct_nontrivial = distinct sequences in which a later atom overrides an earlier one")
 	r.Assume("last-wins map model with the documented couplings")
 	ks := keys()
 	prim := atoms()
